@@ -94,6 +94,30 @@ class Check:
             self.findings.append(f)
         self.by_rule.setdefault(rule, 0)
 
+    def include(self, run_fn, rule_prefixes: tuple[str, ...], rename: tuple[str, str]):
+        """Run another property's rule table and adopt the instances / findings of the named rules under this
+        property's id (shared rules: one implementation, evaluated for every property that relies on it)."""
+        sub = Check(self.prop, self.tier, self.repo, self.seed, quiet=True)
+        sub.write_evidence = False
+        run_fn(sub)
+        old, new = rename
+        for i in sub.instances:
+            if i["rule"].startswith(rule_prefixes):
+                j = dict(i)
+                j["rule"] = new + i["rule"][len(old):] if i["rule"].startswith(old) else i["rule"]
+                self.instances.append(j)
+                self.by_rule[j["rule"]] = self.by_rule.get(j["rule"], 0) + 1
+        for f in sub.findings:
+            if f.rule.startswith(rule_prefixes):
+                f.prop = self.prop
+                f.rule = new + f.rule[len(old):] if f.rule.startswith(old) else f.rule
+                if f.key() not in {g.key() for g in self.findings}:
+                    self.findings.append(f)
+                self.by_rule.setdefault(f.rule, 0)
+        for e in sub.analysis_errors:
+            if any(p in e for p in rule_prefixes):
+                self.analysis_errors.append(e)
+
     def analysis_error(self, msg: str):
         self.analysis_errors.append(msg)
 
